@@ -22,7 +22,7 @@ import (
 // while other packs are still inside their callbacks.
 
 type C15Op struct {
-	Msg    uint64 `json:"msg"`             // seed of the generated message
+	Msg    uint64 `json:"msg"`              // seed of the generated message
 	Shared int    `json:"shared,omitempty"` // >0: use shared message #Shared-1 instead
 	Clone  bool   `json:"clone,omitempty"`  // PackClone instead of TryPack
 	Shape  string `json:"shape,omitempty"`  // "", nil, foreign, typednil, foreignopt, aliasopt
